@@ -53,7 +53,8 @@ def wdy_small(x):
 
 
 NAMES = ['a', 'b', 'c', 'd']
-BAD = {'rnd': 'nearest-even', 'ovf': 'clip'}
+BAD = {'rnd': ['nearest-even', 'Around', 'TRUNC', ' floor', 'ceil\n', None, 3, ''],
+       'ovf': ['clip', 'Wrap', 'SATURATE', ' wrap', 'saturate ', None, 1, '']}
 
 
 def run_behaviour(fx, np, bid, h, variant=0):
@@ -73,7 +74,7 @@ def run_behaviour(fx, np, bid, h, variant=0):
         act = a['act']
         raised, err, cont_ok = False, '', True
         tgt = a.get('x') if act in ('New', 'Store', 'SetItem', 'Resize', 'Reset', 'SetCfg', 'SetCfgBad', 'Assign', 'Drop') else \
-            (a.get('y') if act in ('GetItem', 'CtorLike', 'Like', 'LikeShallow', 'CopyShallow', 'DeepCopy') else a.get('z'))
+            (a.get('y') if act in ('GetItem', 'CtorLike', 'Like', 'LikeShallow', 'CopyShallow', 'DeepCopy', 'RShiftKeep', 'Invert') else a.get('z'))
         for r in rec.values():
             if r is not None:
                 r.ev = []
@@ -99,7 +100,14 @@ def run_behaviour(fx, np, bid, h, variant=0):
                 o = heap[a['x']]
                 o[a['j'] - 1] = val(a['k4'], common.fmt_dict(o))
             elif act == 'GetItem':
-                adopt(a['y'], heap[a['x']][a['j'] - 1:a['j']])
+                src = heap[a['x']]
+                adopt(a['y'], src[a['j'] - 1:a['j']] if a['sel'] == 'one' else (src[::-1] if a['sel'] == 'rev' else src[:]))
+            elif act == 'RShiftKeep':
+                src = heap[a['x']]
+                src.config.shifting = ['trunc', 'keep'][(variant + i) % 2]
+                adopt(a['y'], src >> 1)
+            elif act == 'Invert':
+                adopt(a['y'], ~heap[a['x']])
             elif act == 'CtorLike':
                 adopt(a['y'], Fxp(heap[a['x']], like=heap[a['t']]))
             elif act in ('Like', 'LikeShallow'):
@@ -136,11 +144,12 @@ def run_behaviour(fx, np, bid, h, variant=0):
             elif act == 'SetCfgBad':
                 o = heap[a['x']]
                 key = 'rounding' if a['key'] == 'rnd' else 'overflow'
+                bad = BAD[a['key']][(variant + i + bid) % len(BAD[a['key']])]
                 try:
                     if (variant + i) % 2:
-                        setattr(o, key, BAD[a['key']])
+                        setattr(o, key, bad)
                     else:
-                        setattr(o.config, key, BAD[a['key']])
+                        setattr(o.config, key, bad)
                 except (ValueError, TypeError) as ex:
                     raised, err = True, type(ex).__name__
             elif act == 'BinOp':
